@@ -3,6 +3,7 @@ package engine
 import (
 	pikecache "github.com/vicanso/pike/cache"
 	pikecompress "github.com/vicanso/pike/compress"
+	pikeconfig "github.com/vicanso/pike/config"
 	pikelocation "github.com/vicanso/pike/location"
 	pikeserver "github.com/vicanso/pike/server"
 	pikestore "github.com/vicanso/pike/store"
@@ -27,4 +28,11 @@ func resetAll(cfg *Config) {
 	pikeupstream.ResetWithOnStats(toUpstreams(cfg), func(pikeupstream.StatusInfo) {})
 	pikelocation.Reset(toLocations(cfg))
 	pikeserver.Reset(toServers(cfg))
+}
+
+// resetCompressDefaults gives the process-global compress registry the state of a
+// fresh process (pike never deletes profiles; the built-in bestCompression profile
+// may have been overridden by an earlier configuration).
+func resetCompressDefaults() {
+	pikecompress.Reset([]pikeconfig.CompressConfig{{Name: pikecompress.BestCompression, Levels: map[string]uint{"gzip": 9, "br": 6}}})
 }
